@@ -9,7 +9,7 @@ START_LABELS = ["C17|stack-initialisation-succeeds-for-every-list-and-size", "C1
                 "C17|requested-stack-size-remains-below-the-stack-pointer", "C17|frame-lies-inside-the-stack-area"]
 PLAIN_LABELS = ["C17|plain-stack-initialisation-succeeds", "C17|plain-stack-pointer-is-16-byte-aligned",
                 "C17|plain-stack-pointer-at-the-top-of-a-fresh-area-of-the-requested-size"]
-BOUND_START = ("argc = %s, envc = %s (concrete per harness), every string 0..2 ASCII bytes with symbolic contents; requested stack size any value <= 2^48; "
+BOUND_START = ("argc = %s, envc = %s, string lengths %s (concrete per harness; 9 = any length 0..2), ASCII contents symbolic; requested stack size any value <= %s; "
                "<= 2 pre-existing areas with symbolic extents and permissions; string placement any address the allocator contract allows; "
                "stack placement search cut after 4 candidates")
 BOUND_PLAIN = "requested size 16..2^48; <= 2 pre-existing areas with symbolic extents; placement search cut after 4 candidates"
@@ -26,8 +26,8 @@ def run(tier="quick", prop=None, log=print):
         r = res[h["name"]]
         plain = h["name"] == "stk_plain"
         labels = (PLAIN_LABELS if plain else START_LABELS) + ["C19|no-panic"]
-        m = re.match(r"stk_start_a(\d)_e(\d)", h["name"])
-        bound = BOUND_PLAIN if plain else BOUND_START % (m.group(1), m.group(2))
+        m = re.search(r"check_start\((\d+), (\d+), \[([^\]]*)\], ([^)]*)\)", h["decl"])
+        bound = BOUND_PLAIN if plain else BOUND_START % (m.group(1), m.group(2), "[" + ", ".join(m.group(3).split(", ")[:int(m.group(1)) + int(m.group(2))]) + "]", m.group(4))
         loc = "src/state/memory.rs::" + ("init_stack" if plain else "init_stack_program_start/init_stack_program_start_impl")
         t = (r.get("time") or 0.0) / len(labels)
         cov = r.get("covers")
